@@ -1,5 +1,7 @@
 package main
 
+import "math/big"
+
 func init() {
 	reg := func(name string, f intrinsic) { intrinsics[name] = f }
 	reg("internal/bytealg.MakeNoZero", func(ex *Exec, a []Value, _ *Frame) Value {
@@ -9,5 +11,71 @@ func init() {
 			bs[i] = ex.tf.I64(0)
 		}
 		return ex.bytesSlice(bs)
+	})
+}
+
+func newRat0() *big.Rat { return new(big.Rat) }
+
+func init() {
+	reg := func(name string, f intrinsic) { intrinsics[name] = f }
+	// sort.Slice: insertion sort driven by the real less closure (forks on symbolic comparisons)
+	sortSlice := func(stable bool) intrinsic {
+		return func(ex *Exec, a []Value, fr *Frame) Value {
+			iv := a[0].(Iface)
+			s, ok := iv.V.(Slice)
+			if !ok {
+				panic(engineErr("sort.Slice of a non-slice"))
+			}
+			less := a[1]
+			n := s.Len
+			if n > 8 {
+				panic(engineErr("sort.Slice of more than 8 elements"))
+			}
+			lessAt := func(i, j int) bool {
+				r := ex.callValue(less, []Value{Int{ex.tf.I64(int64(i))}, Int{ex.tf.I64(int64(j))}}, nil, fr)
+				return ex.branchNoSite(ex.asBool(r))
+			}
+			for i := 1; i < n; i++ {
+				for j := i; j > 0 && lessAt(j, j-1); j-- {
+					pa, pb := ex.sliceElemPtr(s, j), ex.sliceElemPtr(s, j-1)
+					va, vb := ex.load(pa), ex.load(pb)
+					ex.store(pa, vb)
+					ex.store(pb, va)
+				}
+			}
+			ex.noteAssumption("sort.Slice/sort.Strings are modelled as an insertion sort calling the real less function (result order is what matters; n <= 8)")
+			return nil
+		}
+	}
+	reg("sort.Slice", sortSlice(false))
+	reg("sort.SliceStable", sortSlice(true))
+	reg("sort.Strings", func(ex *Exec, a []Value, fr *Frame) Value {
+		s := a[0].(Slice)
+		n := s.Len
+		if n > 8 {
+			panic(engineErr("sort.Strings of more than 8 elements"))
+		}
+		for i := 1; i < n; i++ {
+			for j := i; j > 0; j-- {
+				pa, pb := ex.sliceElemPtr(s, j), ex.sliceElemPtr(s, j-1)
+				va, vb := ex.load(pa).(Str), ex.load(pb).(Str)
+				if !ex.branchNoSite(ex.strLess(va, vb, false)) {
+					break
+				}
+				ex.store(pa, vb)
+				ex.store(pb, va)
+			}
+		}
+		return nil
+	})
+	reg("math.Abs", func(ex *Exec, a []Value, _ *Frame) Value {
+		f := ex.tf
+		x := a[0].(Float).T
+		z := f.Real(newRat0())
+		if x.IsConst() {
+			return Float{f.Real(new(big.Rat).Abs(x.R))}
+		}
+		t := f.mk(&Term{Op: "ite", Sort: SReal, Args: []*Term{f.Lt(x, z), f.Sub(z, x), x}})
+		return Float{t}
 	})
 }
